@@ -9,17 +9,20 @@ use crate::types::*;
 use crate::expressions::token::Error;
 use std::collections::HashMap;
 
-/// input kinds: 0 number (symbolic finite f64), 1 boolean, 2 empty (no cell), 3 the text "abc", 4 the error #N/A
+/// input kinds: 0 number (symbolic finite f64), 1 boolean, 2 empty (no cell), 3 the text "abc", 4 the error #N/A,
+/// and for the operator harnesses 5 the empty text "" and 6 the error #DIV/0!
 fn input_cell(k: u8, x: f64, b: bool) -> Option<Cell> {
     if k == 0 { Some(Cell::NumberCell { v: x, s: 0 }) }
     else if k == 1 { Some(Cell::BooleanCell { v: b, s: 0 }) }
     else if k == 2 { None }
     else if k == 3 { Some(Cell::SharedString { si: 0, s: 0 }) }
-    else { Some(Cell::ErrorCell { ei: Error::NA, s: 0 }) }
+    else if k == 4 { Some(Cell::ErrorCell { ei: Error::NA, s: 0 }) }
+    else if k == 5 { Some(Cell::SharedString { si: 2, s: 0 }) }
+    else { Some(Cell::ErrorCell { ei: Error::DIV, s: 0 }) }
 }
 /// what an arithmetic operator sees: Ok(number) or Err(error text)
 fn as_number(k: u8, x: f64, b: bool) -> Result<f64, &'static str> {
-    if k == 0 { Ok(x) } else if k == 1 { Ok(if b { 1.0 } else { 0.0 }) } else if k == 2 { Ok(0.0) } else if k == 3 { Err("#VALUE!") } else { Err("#N/A") }
+    if k == 0 { Ok(x) } else if k == 1 { Ok(if b { 1.0 } else { 0.0 }) } else if k == 2 { Ok(0.0) } else if k == 3 || k == 5 { Err("#VALUE!") } else if k == 4 { Err("#N/A") } else { Err("#DIV/0!") }
 }
 
 fn err(e: &str) -> CellValue { CellValue::String(e.to_string()) }
@@ -30,7 +33,9 @@ fn model_with(k1: u8, x: f64, b1: bool, k2: u8, y: f64, b2: bool, formula: &str)
     if let Some(c) = input_cell(k1, x, b1) { row.insert(1, c); }
     if let Some(c) = input_cell(k2, y, b2) { row.insert(2, c); }
     ws.sheet_data.insert(1, row);
-    let mut model = model_from_workbook(workbook_with_cells(vec![ws]));
+    let mut wb = workbook_with_cells(vec![ws]);
+    wb.shared_strings.push(String::new());
+    let mut model = model_from_workbook(wb);
     if model.set_user_input(0, 1, 3, formula.to_string()).is_err() { return None; }
     model.evaluate();
     Some(model)
@@ -38,7 +43,7 @@ fn model_with(k1: u8, x: f64, b1: bool, k2: u8, y: f64, b2: bool, formula: &str)
 
 pub fn h_c06_add_sub() {
     let (k1, k2) = (any_u8(), any_u8());
-    assume((k1 < 5) & (k2 < 5));
+    assume((k1 < 7) & (k2 < 7));
     let (x, y, b1, b2) = (any_f64_finite(), any_f64_finite(), any_bool(), any_bool());
     let minus = any_bool();
     let entered = model_with(k1, x, b1, k2, y, b2, if minus { "=A1-B1" } else { "=A1+B1" });
@@ -90,21 +95,30 @@ pub fn h_c06_mul_div() {
 /// rank for cross-type comparison: numbers < text < booleans; an empty cell takes the type of the other side
 /// (0, "", FALSE).  Returns the sign of compare(left, right) or an error.
 fn compare_ref(k1: u8, x: f64, b1: bool, k2: u8, y: f64, b2: bool) -> Result<i32, &'static str> {
-    if k1 == 4 || k2 == 4 { return Err("#N/A"); }
-    // normalise empties
-    let (k1n, x1, bb1, t1) = if k1 == 2 { (if k2 == 2 { 0 } else { k2 }, 0.0, false, "") } else { (k1, x, b1, "abc") };
-    let (k2n, x2, bb2, t2) = if k2 == 2 { (if k1 == 2 { 0 } else { k1 }, 0.0, false, "") } else { (k2, y, b2, "abc") };
-    let rank = |k: u8| if k == 0 { 0 } else if k == 3 { 1 } else { 2 };
-    if rank(k1n) != rank(k2n) { return Ok(if rank(k1n) < rank(k2n) { -1 } else { 1 }); }
-    if k1n == 0 { return Ok(if x1 < x2 { -1 } else if x1 > x2 { 1 } else { 0 }); }
-    if k1n == 3 { return Ok(if t1 < t2 { -1 } else if t1 > t2 { 1 } else { 0 }); }
-    Ok(if bb1 == bb2 { 0 } else if bb1 { 1 } else { -1 })
+    // the left error wins
+    if k1 == 4 { return Err("#N/A"); }
+    if k1 == 6 { return Err("#DIV/0!"); }
+    if k2 == 4 { return Err("#N/A"); }
+    if k2 == 6 { return Err("#DIV/0!"); }
+    let is_text = |k: u8| k == 3 || k == 5;
+    // normalise empties: an empty cell takes the type of the other side (0, "", FALSE)
+    let (e1, e2) = (k1 == 2, k2 == 2);
+    let t1 = if k1 == 3 { "abc" } else { "" };
+    let t2 = if k2 == 3 { "abc" } else { "" };
+    let rank = |k: u8| if k == 0 { 0 } else if is_text(k) { 1 } else { 2 };
+    let r1 = if e1 { if e2 { 0 } else { rank(k2) } } else { rank(k1) };
+    let r2 = if e2 { if e1 { 0 } else { rank(k1) } } else { rank(k2) };
+    if r1 != r2 { return Ok(if r1 < r2 { -1 } else { 1 }); }
+    if r1 == 0 { let (a, b) = (if e1 { 0.0 } else { x }, if e2 { 0.0 } else { y }); return Ok(if a < b { -1 } else if a > b { 1 } else { 0 }); }
+    if r1 == 1 { return Ok(if t1 < t2 { -1 } else if t1 > t2 { 1 } else { 0 }); }
+    let (a, b) = (if e1 { false } else { b1 }, if e2 { false } else { b2 });
+    Ok(if a == b { 0 } else if a { 1 } else { -1 })
 }
 const CMP: [&str; 6] = ["=A1=B1", "=A1<>B1", "=A1<B1", "=A1<=B1", "=A1>B1", "=A1>=B1"];
 
 pub fn h_c06_compare() {
     let (k1, k2) = (any_u8(), any_u8());
-    assume((k1 < 5) & (k2 < 5));
+    assume((k1 < 7) & (k2 < 7));
     let (i, j, b1, b2) = (any_usize_to(2), any_usize_to(2), any_bool(), any_bool());
     let (x, y) = (NUMS[i], NUMS[j]);
     let c = any_usize_to(CMP.len() - 1);
